@@ -48,6 +48,8 @@ def gen(rng, tier, index):
         # persistence on (scheduled saves come and go while nodes sleep): saving must not disturb the hold-back state
         cfg["persistence"] = rng.choice(["pickle", "pickle", "json"])
         weights["advance"] = 8
+        if rng.random() < 0.6:
+            weights["restart"] = 3  # ... and the controller is restarted now and then: restored nodes sleep and wake like fresh ones
     ops = netgen.make_ops(rng, cfg["version"], rng.randint(15, 60 if tier == "thorough" else 45), weights, nodes=(2, 4), scenario=0.4)
     ops = netgen.chunkify(rng, ops)
     if cfg["flavour"] in ("serial", "tcp") and rng.random() < 0.3:
